@@ -121,7 +121,12 @@ def seqAnswer (script : Script) (s : SeqSt) (o : Op) : Option (Resp × SeqSt) :=
           some (.no, s'.log { tid := me, op := o, resp := .no })
         else plain s' false
       | _ => plain s' false
-  | none => plain s false
+  | none =>
+    match o with
+    | .poisonClear _ =>
+      -- the harness also samples the flags right after a `clear_poison()`
+      (plain s false).map fun (r, s') => (r, s'.samplePoison)
+    | _ => plain s false
 
 def seqRun {α : Type} (script : Script) : Nat → SeqSt → Prog Unit α → Terminal × SeqSt
   | 0, s, _ => (.outOfFuel, s)
